@@ -236,7 +236,7 @@ SUBCHECKS = {
         describe="pinch_analysis_service x graph options: every emitted series vs the table slice stored on its target; graph-set bookkeeping and documented graph types",
         rule="case = (streams, zones, utility set, balanced/vertical/assisted flags); non-trivial = some record has >=3 series with >=2 points each; outcomes = distinct graph-set summaries",
         cases=cases, run=run,
-        bound=lambda t: "multisets <=2 (18 types) x <=2 zones x 2 utility sets x 8 flag assignments + 3-multisets (6 types) x 2 flag assignments" if t == "quick"
+        bound=lambda t: "multisets <=2 (18 types) x <=2 zones x 2 utility sets x 8 flag assignments + 3-multisets (6 types) x 2 flag assignments + tiny-duty family" if t == "quick"
         else "multisets <=3 (18 types) x <=2 zones x 2 utility sets x 8 flag assignments",
     ),
 }
